@@ -698,6 +698,7 @@ pub fn gen_c04(ctx: &Ctx, run: u64) -> ScenarioB {
             for _ in 0..n {
                 let mate_bias = rng.chance(1, 3);
                 let mut st = gen_step(&mut rng, poll_interval, tau_ps, max_depth, mate_bias);
+                let mut extra: Vec<SearchStep> = Vec::new();
                 if rng.chance(15, 100) {
                     st.resize_mb = Some(*rng.pick(&[0usize, 0, 1, 1, 2, 3, 4, 8, 16, 64]));
                 }
@@ -709,14 +710,44 @@ pub fn gen_c04(ctx: &Ctx, run: u64) -> ScenarioB {
                 let prev_has_rights = steps.last().map(|p: &SearchStep| (p.fen.split_whitespace().nth(2).map(|r| r != "-").unwrap_or(false) || p.fen.split_whitespace().nth(3).map(|r| r != "-").unwrap_or(false)) && p.moves.len() < 12).unwrap_or(false);
                 if rng.chance(if prev_has_rights { 40 } else { 10 }, 100) {
                     if let Some(prev) = steps.last() {
-                        if let Some(twin) = twin_with_fewer_rights(prev, &mut rng) {
+                        // … lost by the rules (pieces left home and came back) or simply not there
+                        let shuffled = if rng.chance(1, 3) { shuffle_away_rights(prev, &mut rng) } else { None };
+                        if let Some(moves) = shuffled {
+                            st.fen = prev.fen.clone();
+                            st.moves = moves;
+                            st.resize_mb = None;
+                            st.reset = false;
+                        } else if let Some(twin) = twin_with_fewer_rights(prev, &mut rng) {
                             st.fen = twin;
                             st.moves.clear();
                             st.resize_mb = None;
                             st.reset = false;
                         }
                     }
+                } else if rng.chance(20, 100) {
+                    // … or a child of the previous position after a double pawn push, without the
+                    // en-passant right the push granted inside the previous search's tree (that
+                    // search is made deep enough for its inner nodes to be stored with moves)
+                    if let Some(prev) = steps.last_mut() {
+                        let mut twins = children_without_ep_right(prev);
+                        if !twins.is_empty() {
+                            let twin = twins.swap_remove(rng.below(twins.len() as u64) as usize);
+                            for t in twins.into_iter().take(3) {
+                                extra.push(SearchStep { fen: t, moves: vec![], go: GoSpec::depth(rng.range(1, 3) as u8), move_overhead: 0, stop_at_poll: None, resize_mb: None, reset: false, clock_events: vec![] });
+                            }
+                            if prev.go.depth.map(|d| d < 5).unwrap_or(false) && !prev.go.timed() && prev.stop_at_poll.is_none() {
+                                prev.go = GoSpec::depth(rng.range(5, max_depth as u64) as u8);
+                            }
+                            st.fen = twin;
+                            st.moves.clear();
+                            st.resize_mb = None;
+                            st.reset = false;
+                            st.go = GoSpec::depth(rng.range(1, 4) as u8);
+                            st.stop_at_poll = None;
+                        }
+                    }
                 }
+                steps.append(&mut extra);
                 steps.push(st);
             }
         }
@@ -759,6 +790,137 @@ pub fn gen_c04(ctx: &Ctx, run: u64) -> ScenarioB {
         }
     }
     ScenarioB { initial_hash_mb, poll_interval, tau_ps, clock_read_step_ns: gen_read_step(&mut rng), steps }
+}
+
+/// The position after a double pawn push that grants an en-passant right, written WITHOUT that right:
+/// inside the previous search's tree the same placement occurred with the right.
+fn child_without_ep_right(prev: &SearchStep, rng: &mut Rng) -> Option<String> {
+    let cands = children_without_ep_right(prev);
+    if cands.is_empty() {
+        None
+    } else {
+        Some(rng.pick(&cands).clone())
+    }
+}
+
+fn children_without_ep_right(prev: &SearchStep) -> Vec<String> {
+    let Ok(g) = super::oracle::build_position(Some(&prev.fen), &prev.moves) else { return vec![] };
+    let mut cands = Vec::new();
+    for mv in g.moves().iter() {
+        let mut n = g.clone();
+        n.make_move(*mv);
+        if n.en_passant_target.is_some() && !n.moves().is_empty() {
+            let mut f: Vec<String> = n.to_fen().split_whitespace().map(|s| s.to_string()).collect();
+            if f.len() >= 4 {
+                f[3] = "-".to_string();
+                cands.push(f.join(" "));
+            }
+        }
+    }
+    cands
+}
+
+/// Piece letters by square name (`e1` …) of a FEN placement field.
+fn fen_board(placement: &str) -> std::collections::BTreeMap<String, char> {
+    let mut b = std::collections::BTreeMap::new();
+    for (ri, rank) in placement.split('/').enumerate() {
+        let mut file = 0u8;
+        for c in rank.chars() {
+            if let Some(d) = c.to_digit(10) {
+                file += d as u8;
+            } else {
+                b.insert(format!("{}{}", (b'a' + file) as char, 8 - ri), c);
+                file += 1;
+            }
+        }
+    }
+    b
+}
+
+/// A continuation of `prev`'s game after which the very same placement is on the board with the same
+/// side to move, but castling rights are gone: a king or rook leaves its home square and returns,
+/// twice, while the other side does the same with some piece (8 plies).  By the rules the result
+/// differs from `prev`'s position in nothing but the rights (and the counters).
+fn shuffle_away_rights(prev: &SearchStep, rng: &mut Rng) -> Option<Vec<String>> {
+    if prev.moves.len() > 60 {
+        return None;
+    }
+    let g = super::oracle::build_position(Some(&prev.fen), &prev.moves).ok()?;
+    let fen = g.to_fen();
+    let f: Vec<&str> = fen.split_whitespace().collect();
+    if f.len() < 4 || f[2] == "-" {
+        return None;
+    }
+    let rights = f[2].to_string();
+    let loses = |from: &str| -> bool {
+        match from {
+            "e1" => rights.contains('K') || rights.contains('Q'),
+            "h1" => rights.contains('K'),
+            "a1" => rights.contains('Q'),
+            "e8" => rights.contains('k') || rights.contains('q'),
+            "h8" => rights.contains('k'),
+            "a8" => rights.contains('q'),
+            _ => false,
+        }
+    };
+    let quiet = |game: &crate::chess::game::Game| -> Vec<String> {
+        let gf = game.to_fen();
+        let board = fen_board(gf.split_whitespace().next().unwrap_or(""));
+        super::oracle::legal_move_strs(game)
+            .into_iter()
+            .filter(|m| m.len() == 4)
+            .filter(|m| {
+                let (from, to) = (&m[0..2], &m[2..4]);
+                let piece = board.get(from).copied().unwrap_or('P');
+                let king_jump = (piece == 'K' || piece == 'k') && (from.as_bytes()[0] as i32 - to.as_bytes()[0] as i32).abs() > 1;
+                piece != 'P' && piece != 'p' && !board.contains_key(to) && !king_jump
+            })
+            .collect()
+    };
+    let rev = |m: &str| format!("{}{}", &m[2..4], &m[0..2]);
+    for _ in 0..8 {
+        let c1 = quiet(&g);
+        if c1.is_empty() {
+            return None;
+        }
+        let pref1: Vec<String> = c1.iter().filter(|m| loses(&m[0..2])).cloned().collect();
+        let m1 = if !pref1.is_empty() && rng.chance(4, 5) { rng.pick(&pref1).clone() } else { rng.pick(&c1).clone() };
+        let mut g1 = g.clone();
+        g1.make_move(super::oracle::find_move(&g1, &m1)?);
+        let c2 = quiet(&g1);
+        if c2.is_empty() {
+            continue;
+        }
+        let pref2: Vec<String> = c2.iter().filter(|m| loses(&m[0..2])).cloned().collect();
+        let o1 = if !pref2.is_empty() && rng.chance(1, 2) { rng.pick(&pref2).clone() } else { rng.pick(&c2).clone() };
+        if !loses(&m1[0..2]) && !loses(&o1[0..2]) {
+            continue;
+        }
+        let round = [m1.clone(), o1.clone(), rev(&m1), rev(&o1)];
+        let mut seq: Vec<String> = Vec::new();
+        let mut game = g.clone();
+        let mut ok = true;
+        'play: for _ in 0..2 {
+            for m in &round {
+                match super::oracle::find_move(&game, m) {
+                    Some(mv) => {
+                        game.make_move(mv);
+                        seq.push(m.clone());
+                    }
+                    None => {
+                        ok = false;
+                        break 'play;
+                    }
+                }
+            }
+        }
+        if ok && !game.moves().is_empty() {
+            let mut all = prev.moves.clone();
+            all.extend(seq);
+            return Some(all);
+        }
+    }
+    None
 }
 
 fn twin_with_fewer_rights(prev: &SearchStep, rng: &mut Rng) -> Option<String> {
@@ -859,11 +1021,33 @@ pub fn gen_c08(ctx: &Ctx, run: u64) -> ScenarioB {
     // placement, fewer castling rights (the hash move is played without a legality test)
     let (fen, moves) = {
         let mut fm = (fen, moves);
-        if rng.chance(1, 6) {
+        if rng.chance(1, 8) {
+            // the children after a double pawn push, without the en-passant right they had inside the
+            // tree of the search just before; all but one searched shallowly, the last one monitored
+            for _ in 0..6 {
+                let first = SearchStep { fen: fm.0.clone().unwrap_or_else(|| super::corpus::STARTPOS.to_string()), moves: fm.1.clone(), go: GoSpec::depth(rng.range(5, max_depth as u64) as u8), move_overhead: 0, stop_at_poll: None, resize_mb: None, reset: false, clock_events: vec![] };
+                let mut twins = children_without_ep_right(&first);
+                if twins.is_empty() {
+                    fm = gen_position(&mut rng, false);
+                    continue;
+                }
+                steps.push(first);
+                let last = twins.swap_remove(rng.below(twins.len() as u64) as usize);
+                for t in twins.into_iter().take(3) {
+                    steps.push(SearchStep { fen: t, moves: vec![], go: GoSpec::depth(rng.range(1, 3) as u8), move_overhead: 0, stop_at_poll: None, resize_mb: None, reset: false, clock_events: vec![] });
+                }
+                fm = (Some(last), vec![]);
+                break;
+            }
+        } else if rng.chance(1, 6) {
             let castling = super::corpus::EXTRA.iter().copied().filter(|f| f.split_whitespace().nth(2).map(|r| r.len() >= 2).unwrap_or(false)).collect::<Vec<_>>();
             let base = rng.pick(&castling).to_string();
             let first = SearchStep { fen: base.clone(), moves: vec![], go: GoSpec::depth(rng.range(2, 5) as u8), move_overhead: 0, stop_at_poll: None, resize_mb: None, reset: false, clock_events: vec![] };
-            if let Some(twin) = twin_with_fewer_rights(&first, &mut rng) {
+            let shuffled = if rng.chance(1, 3) { shuffle_away_rights(&first, &mut rng) } else { None };
+            if let Some(moves) = shuffled {
+                steps.push(first);
+                fm = (Some(base), moves);
+            } else if let Some(twin) = twin_with_fewer_rights(&first, &mut rng) {
                 steps.push(first);
                 fm = (Some(twin), vec![]);
             }
@@ -1610,14 +1794,19 @@ fn gen_c12_script(rng: &mut Rng, thorough: bool, with_newgame: bool, bare_go_aft
     if rng.chance(1, 3) {
         script.push(Intent::SetOption { name: "Hash".into(), value: rng.pick(&["0", "1", "2", "3", "4"]).to_string() });
     }
-    let n = rng.range(2, if thorough { 9 } else { 6 });
-    let cut = if with_newgame { rng.range(1, n - 1) } else { u64::MAX };
+    let mut n = rng.range(2, if thorough { 9 } else { 6 });
+    let mut cut = if with_newgame { rng.range(1, n - 1) } else { u64::MAX };
     let mut last_position: Option<(Option<String>, Vec<String>)> = None;
-    // a long old game now and then: the per-search counters of the tables wrap (or just do not)
-    if with_newgame && rng.chance(1, 40) {
+    // a long old game now and then: the per-search counters of the tables wrap (or just do not);
+    // the new game then analyses ONE position repeatedly (what the counters order are entries of
+    // successive searches that meet in the same slots)
+    let long_old_game = with_newgame && rng.chance(1, 25);
+    if long_old_game {
+        n = n.max(4);
+        cut = cut.min(n - 3);
         let (fen, moves) = gen_position(rng, false);
         script.push(Intent::Position { fen, moves });
-        let k = *rng.pick(&[255u32, 256, 257, 511, 512]) - cut as u32;
+        let k = *rng.pick(&[253u32, 254, 254, 255, 256, 257, 510, 511, 512]) - cut as u32;
         for _ in 0..k {
             script.push(Intent::Go(GoSpec::depth(1)));
             script.push(Intent::WaitBestmove);
@@ -1641,7 +1830,12 @@ fn gen_c12_script(rng: &mut Rng, thorough: bool, with_newgame: bool, bare_go_aft
         if rng.chance(1, 6) {
             script.push(Intent::Stop);
         }
-        if rng.chance(1, 4) && i > 0 && i != cut {
+        if long_old_game && i > cut && !bare_go_after_newgame {
+            // same position again (the GUI sends nothing new) or the game continues
+            if rng.chance(1, 3) {
+                script.push(Intent::PlayBest);
+            }
+        } else if rng.chance(1, 4) && i > 0 && i != cut {
             script.push(Intent::PlayBest);
         } else if i == cut && bare_go_after_newgame {
             // a bare `go` right after `ucinewgame`: a fresh engine searches the start position
@@ -1675,6 +1869,8 @@ fn gen_c12_script(rng: &mut Rng, thorough: bool, with_newgame: bool, bare_go_aft
             } else {
                 script.push(Intent::Go(GoSpec::movetime(rng.range(0, 10))));
             }
+        } else if long_old_game && i >= cut {
+            script.push(Intent::Go(GoSpec::depth(rng.range(3, 6) as u8)));
         } else {
             script.push(Intent::Go(gen_depth_go(rng, if thorough { 7 } else { 6 })));
         }
